@@ -179,6 +179,9 @@ impl OutputFormat for TundraDraw {
             let mut cmd = data[o];
             o += 1;
             if cmd == TUNDRA_POSITION {
+                if o + 8 > data.len() {
+                    return Err(LoadingError::FileTooShort.into());
+                }
                 pos.y = to_u32(&data[o..]);
                 if pos.y >= (u16::MAX) as i32 {
                     return Err(io::Error::new(
@@ -205,9 +208,15 @@ impl OutputFormat for TundraDraw {
             }
 
             if cmd > 1 && cmd <= 6 {
+                if o >= data.len() {
+                    return Err(LoadingError::FileTooShort.into());
+                }
                 let ch = data[o];
                 o += 1;
                 if cmd & TUNDRA_COLOR_FOREGROUND != 0 {
+                    if o + 4 > data.len() {
+                        return Err(LoadingError::FileTooShort.into());
+                    }
                     o += 1;
                     let r = data[o];
                     o += 1;
@@ -218,6 +227,9 @@ impl OutputFormat for TundraDraw {
                     attr.set_foreground(result.palette.insert_color_rgb(r, g, b));
                 }
                 if cmd & TUNDRA_COLOR_BACKGROUND != 0 {
+                    if o + 4 > data.len() {
+                        return Err(LoadingError::FileTooShort.into());
+                    }
                     o += 1;
                     let r = data[o];
                     o += 1;
